@@ -327,10 +327,10 @@ def gen_history(rng, kind, quick):
     hist = []
     for _ in range(n):
         if kind == "probs":
-            hist.append({"op": "probability_of", "state": [rng.randint(0, 1), rng.randint(0, 1)], "batch_size": rng.choice([1, 2, 3])})
+            hist.append({"op": "probability_of", "state": [rng.randint(0, 1), rng.randint(0, 1)], "batch_size": rng.choice([1, 2, 3] if quick else [1, 2, 3, 4, 6])})
             continue
-        b = rng.choice([1, 2, 3, None])
-        shots = rng.choice([1, 2, 3, 4, 5, 7]) if b is not None else rng.choice([1, 2, 3])
+        b = rng.choice([1, 2, 3, None] if quick else [1, 2, 3, 4, 6, None])
+        shots = rng.choice([1, 2, 3, 4, 5, 7] if quick else list(range(1, 14))) if b is not None else rng.choice([1, 2, 3])
         h = {"op": "sample", "shots": shots, "batch_size": b}
         if kind == "detector":
             fl = rng.choice([{}, {"append_observables": True}, {"separate_observables": True}, {"prepend_observables": True, "bit_packed": True},
@@ -511,7 +511,7 @@ def run(ctx: Ctx) -> int:
     return ctx.finish(
         rule="histories: per sampler kind (measurement with noise + several outputs per component, detector with random output flags "
              "incl. rejected combinations, CompiledStateProbs, noiseless, three channels) random sequences (2 per kind quick, 8 thorough) of 2-3 (thorough 2-5) calls with "
-             "shots in {1,2,3,4,5,7} and batch_size in {1,2,3,None}, seeds random 30-bit; every jax.random call logged with key bits; "
+             "shots in {1,2,3,4,5,7} (thorough 1..13) and batch_size in {1,2,3,None} (thorough also 4, 6), seeds random 30-bit; every jax.random call logged with key bits; "
              "log checked directly (no key used twice, every used key produced earlier, two roots) and for isomorphism with the Coq "
              "model's log; one history under jax.disable_jit() with the unmodified jitted forwarder. outputs: same seed twice, 2 (4) "
              "seeds pairwise, successive calls, successive batches. non-trivial = more than one call or more than one batch. "
